@@ -170,6 +170,14 @@ def builtin(lib, ex, name, args, kw, st, node):
 
 
 def call_opaque(lib, ex, base, name, args, kw, st, node):
+    if base.tag == "module:simpy" and name == "Resource":
+        # K-Resource: simpy.Resource(env, capacity=n) has n slots and no users
+        s = st.fork()
+        r = s.fresh_obj("resource")
+        cap = kw.get("capacity", args[1] if len(args) > 1 else Num(1))
+        s.heap_set(r, "res_capacity", V.as_num(cap))
+        s.heap_set(r, "res_users", Num(0))
+        return [(r, s)]
     if base.tag == "module:random" and name == "randint":
         a, b = V.as_num(args[0]).t, V.as_num(args[1]).t
         outs, ok = ex.raise_if(st, a > b, "ValueError", node.lineno, "randint: empty range")
